@@ -24,7 +24,7 @@ RULE = ("families {daily current/legacy, billing, hourly} x baseline datasets (n
 ASSUMPTIONS = ["when several refusal reasons hold at once (e.g. disqualified and foreign timezone) any raised exception counts as refusal",
                "a model 'carries a disqualification' when model.disqualification is non-empty"]
 REQUIRED_REACH = {"event.fit": 24, "event.predict": 200, "gate.fit_refused": 6, "gate.fit_overridden": 6, "gate.predict_refused_dq": 10,
-                  "gate.predict_overridden": 10, "gate.predict_refused_foreign": 40, "gate.stored_model_events": 60, "gate.poor_fit_model": 2, "gate.poor_fit_rule_judged": 3, "gate.model_object_refitted": 6, "gate.subclass_related_foreign_type": 4, "gate.poor_fit_with_an_undefined_metric": 1, "gate.reporting_data_with_an_unused_column": 4, "gate.poor_fit_rule_judged_on_a_poor_fit_of_another_hourly_profile": 2,
+                  "gate.predict_overridden": 10, "gate.predict_refused_foreign": 40, "gate.stored_model_events": 60, "gate.poor_fit_model": 2, "gate.poor_fit_rule_judged": 3, "gate.model_object_refitted": 6, "gate.subclass_related_foreign_type": 4, "gate.poor_fit_with_an_undefined_metric": 1, "gate.reporting_data_with_an_unused_column": 4, "gate.another_model_of_the_family_fitted_afterwards": 12, "gate.poor_fit_rule_judged_on_a_poor_fit_of_another_hourly_profile": 2,
                   "gate.unfitted": 6, "stored.disqualification_kind:missing_monthly_temperature_data": 1, "stored.disqualification_kind:incorrect_number_of_total_days": 1}
 
 VIOL = []
@@ -155,6 +155,20 @@ def run_case(spec):
             if ref is not None and names(mo.disqualification) != names(ref.disqualification):
                 add("refitted-model-carries-gate-state-of-an-earlier-fit:%s" % fam.kind, "model object fitted on a %s baseline and then on this one carries %s; a fresh object carries %s" % (
                     "disqualified" if other_defect != "none" else "clean", names(mo.disqualification), names(ref.disqualification)), **tag)
+    # ---- fleet processing: ANOTHER model object of the family is fitted afterwards on a baseline of the opposite gate status: the models
+    #      fitted before keep the disqualifications they were fitted with (and the predict gates below are judged after this) ---------------
+    if fam.kind != "caltrack" and models:
+        at_fit = {ign_: names(m_.disqualification) for ign_, m_ in models.items()}
+        later_defect = "none" if data_dq else "too_short"
+        o3, _, _ = outcome_of(lambda: fam.new_model(seed=spec["n"] + 7).fit(fam.baseline_data(defect_frame(fam, rng, tz, later_defect)), ignore_disqualification=True))
+        if o3 == "returned":
+            I.reach("gate.another_model_of_the_family_fitted_afterwards")
+            for ign_, m_ in models.items():
+                if names(m_.disqualification) != at_fit[ign_]:
+                    add("gate-state-of-a-fitted-model-changed-by-a-later-fit-of-another-model:%s" % fam.kind,
+                        "model fitted with %s; after another model object was fitted on a %s baseline it carries %s" % (
+                            at_fit[ign_], "clean" if later_defect == "none" else "disqualified", names(m_.disqualification)), **tag)
+                    break
     # unfitted model refuses to predict
     rep_df = fam.reporting_frame(rng, tz, "2019-03-01", 60, with_observed=True)
     rdata = fam.reporting_data(rep_df)
